@@ -941,7 +941,11 @@ Qed.
 
 Lemma step_wf kl st o : wf st -> wf (fst (step succ subject manifest cfg_fixed kl st o)).
 Proof.
-  intro Hw. destruct o as [n|n t|t|n| |b|s|]; simpl.
+  intro Hw. destruct o as [n|n t|t|n| |b|s| |]; simpl.
+  9: { intros y Hy. cbn [gnodes blobs] in *. apply (proj1 (dedup_In _ _)) in Hy.
+       apply in_flat_map in Hy as (n & _ & Hy).
+       change (clo succ manifest cfg_fixed) with (closure succ) in Hy.
+       apply closure_spec in Hy. eapply Reach_in; eauto. }
   8: { intros y Hy. cbn [gnodes blobs] in *. apply (proj1 (dedup_In _ _)) in Hy.
        apply in_flat_map in Hy as (n & _ & Hy).
        change (clo succ manifest cfg_fixed) with (closure succ) in Hy.
@@ -1043,7 +1047,9 @@ Qed.
 
 Lemma step_no_stale kl st o : no_stale st -> no_stale (fst (step succ subject manifest cfg_fixed kl st o)).
 Proof.
-  intro Hw. destruct o as [n|n t|t|n| |b|s|]; simpl.
+  intro Hw. destruct o as [n|n t|t|n| |b|s| |]; simpl.
+  9: { intros t m H. cbn [idx] in H. apply in_flat_map in H as ([r k] & _ & H). simpl in H.
+       destruct r; simpl in H; try contradiction. destruct H as [H|[H|[]]]; discriminate. }
   8: { intros t m H. cbn [idx] in H. apply filter_In in H as [H _]. now apply (Hw t m). }
   - unfold push. destruct (memb n (blobs st)); [exact Hw|]. intros t m H. cbn [fst idx] in H.
     destruct (manifest n); [|now apply (Hw t m)].
@@ -1109,7 +1115,7 @@ Qed.
 Inductive Hist (kl any : bool) : state -> Prop :=
 | H_init : Hist kl any init
 | H_op st o : Hist kl any st ->
-    match o with ODelete _ | OGC | OReopen => False | _ => True end ->
+    match o with ODelete _ | OGC | OReopen | OForeign => False | _ => True end ->
     Hist kl any (fst (step succ subject manifest cfg_fixed kl st o))
 | H_delete st n ord : Hist kl any st -> (forall k l y, In y (ord k l) <-> In y l) ->
     Hist kl any (fst (delete succ subject manifest cfg_fixed ord st n))
@@ -1119,7 +1125,9 @@ Inductive Hist (kl any : bool) : state -> Prop :=
     Hist kl any (fst (step succ subject manifest cfg_fixed kl
                        (fst (gc succ subject manifest cfg_fixed kl ords st)) OReopen))
 | H_reopen st : any = true -> Hist kl any st ->
-    Hist kl any (fst (step succ subject manifest cfg_fixed kl st OReopen)).
+    Hist kl any (fst (step succ subject manifest cfg_fixed kl st OReopen))
+| H_foreign st : any = true -> Hist kl any st ->
+    Hist kl any (fst (step succ subject manifest cfg_fixed kl st OForeign)).
 
 Lemma gc_wf kl ords st : (forall i n, In n (ords i) <-> In n (candidates (idx st))) ->
   wf (fst (gc succ subject manifest cfg_fixed kl ords st)).
@@ -1140,20 +1148,21 @@ Qed.
 
 Lemma hist_wf kl any st : Hist kl any st -> wf st.
 Proof.
-  induction 1 as [|st o _ IH _|st n ord _ IH _|st ords _ IH Ho|st ords _ IH Ho|st _ _ IH].
+  induction 1 as [|st o _ IH _|st n ord _ IH _|st ords _ IH Ho|st ords _ IH Ho|st _ _ IH|st _ _ IH].
   - intros y [].
   - now apply step_wf.
   - unfold delete. now apply delete_loop_wf.
   - now apply gc_wf.
   - apply step_wf. now apply gc_wf.
   - now apply step_wf.
+  - now apply step_wf.
 Qed.
 
 Lemma hist_full kl st : Hist kl false st -> full st.
 Proof.
-  induction 1 as [|st o _ IH Ho|st n ord _ IH _|st ords _ IH Ho|st ords _ IH Ho|st Hf _ _]; try discriminate.
+  induction 1 as [|st o _ IH Ho|st n ord _ IH _|st ords _ IH Ho|st ords _ IH Ho|st Hf _ _|st Hf _ _]; try discriminate.
   - intros y [].
-  - destruct o as [n|n t|t|n| |b|s|]; try contradiction; simpl.
+  - destruct o as [n|n t|t|n| |b|s| |]; try contradiction; simpl.
     + unfold push. destruct (memb n (blobs st)); [exact IH|]. intros y Hy. simpl in *.
       destruct (Nat.eq_dec y n) as [->|Hne]; [now left|]. right. apply removeb_In.
       split; [|assumption]. destruct Hy as [->|Hy]; [contradiction|now apply IH].
@@ -1173,12 +1182,13 @@ Qed.
 
 Lemma hist_no_stale kl any st : Hist kl any st -> no_stale st.
 Proof.
-  induction 1 as [|st o _ IH _|st n ord _ IH _|st ords _ IH Ho|st ords _ IH Ho|st _ _ IH].
+  induction 1 as [|st o _ IH _|st n ord _ IH _|st ords _ IH Ho|st ords _ IH Ho|st _ _ IH|st _ _ IH].
   - intros t n [].
   - now apply step_no_stale.
   - unfold delete. now apply delete_loop_no_stale.
   - now apply gc_no_stale.
   - apply step_no_stale. now apply gc_no_stale.
+  - now apply step_no_stale.
   - now apply step_no_stale.
 Qed.
 
